@@ -16,7 +16,8 @@ RenComps(cs, p, tag) ==
   [i \in DOMAIN cs |-> [cs[i] EXCEPT !.n = p \o tag \o ToString(i),
                                      !.t = Ren(cs[i].t, p \o tag \o ToString(i))]]
 Ren(T, p) ==
-  CASE T.k \in {"SEQUENCE", "SET", "CHOICE"} ->
+  CASE IsIoSeq(T) \/ T.k = "OPEN" -> T
+    [] T.k \in {"SEQUENCE", "SET", "CHOICE"} ->
          [T EXCEPT !.comps = RenComps(T.comps, p, "c"), !.adds = RenComps(T.adds, p, "x")]
     [] T.k \in {"SEQOF", "SETOF", "TAGGED"} -> [T EXCEPT !.t = Ren(T.t, p \o "e")]
     [] OTHER -> T
@@ -306,5 +307,32 @@ ModX3 == MkMod("VX3", "IMPLICIT", <<
   D("Pct", TSeq(<<Df(IA5, <<49, 48, 48, 37, 32, 100, 111, 110, 101>>), Df(IA5, <<53, 48, 37>>), Df(TStr("Visible", CNone, <<>>), <<37, 115, 37, 110>>),
                   C(TRef("Id"))>>, FALSE, <<>>)) >>)
 
-Modules == <<ModExplicit, ModAutomatic, ModImplicit, ModBig, ModConstraints, ModX1, ModX2, ModX3>>
+\* ---- information object sets (C18) ---------------------------------------------------------
+\* rows of built-in types (Frame1, Frame3), of defined types (Frame2), a single-row set (Frame3)
+IoRows1 == <<Row(1, "INTEGER", Int0), Row(2, "IA5String", IA5), Row(300, "Rec", TRef("Rec")), Row(128, "BOOLEAN", TBool)>>
+IoRows2 == <<Row(5, "Rec", TRef("Rec")), Row(255, "List", TRef("List")), Row(0, "NullT", TRef("NullT")), Row(32767, "OctT", TRef("OctT"))>>
+IoRows3 == <<Row(7, "REAL", TReal)>>
+\* OBJECT IDENTIFIER identifiers
+IoRows4 == <<RowO(<<1, 2, 840, 1>>, "Rec", TRef("Rec")), RowO(<<1, 2, 840, 2>>, "BOOLEAN", TBool), RowO(<<2, 999>>, "OctT", TRef("OctT")),
+             RowO(<<1, 2, 840, 1, 0>>, "Frame1", TRef("Frame1"))>>
+ModIoc == MkMod("VO", "AUTOMATIC", <<
+  D("NullT", TNull), D("OctT", TOctets(CNone)),
+  D("Rec", TSeq(<<C(Int0), C(IA5)>>, FALSE, <<>>)),
+  D("List", TSeqOf(IA5, CNone)),
+  D("Frame1", TIoSeq(IoRows1, FALSE, "1")),
+  D("Frame2", TIoSeq(IoRows2, TRUE, "2")),
+  D("Frame3", TIoSeq(IoRows3, FALSE, "3")),
+  D("Frame4", TIoSeq(IoRows4, TRUE, "4")),
+  D("Outer", TSeq(<<C(TBool), C(TRef("Frame1")), O(TRef("Frame2"))>>, FALSE, <<>>)),
+  D("Many", TSeqOf(TRef("Frame4"), CNone)) >>)
+
+\* identifier values outside 0..32767 (asn1c refuses them under -fwide-types: a separate module)
+IoRows5 == <<Row(-1, "Nul", TRef("Nul")), Row(65536, "BOOLEAN", TBool), Row(2147483647, "Pair", TRef("Pair")), Row(-32769, "IA5String", IA5)>>
+ModIoc2 == MkMod("VP", "AUTOMATIC", <<
+  D("Nul", TNull), D("Pair", TSeq(<<C(TBool), O(Int0)>>, FALSE, <<>>)),
+  D("Frame5", TIoSeq(IoRows5, FALSE, "5")),
+  D("Wrap", TSeq(<<C(TRef("Frame5")), O(TRef("Frame5"))>>, TRUE, <<>>)),
+  D("Frames", TSetOf(TRef("Frame5"), CNone)) >>)
+
+Modules == <<ModExplicit, ModAutomatic, ModImplicit, ModBig, ModConstraints, ModX1, ModX2, ModX3, ModIoc, ModIoc2>>
 =============================================================================
